@@ -233,11 +233,7 @@ func (t *Tokenizer) tokenizeBuffer(buf []byte, last bool) {
 				if digitMap[b] != numDigit {
 					break
 				}
-				t.num.I = t.num.I*10 + uint64(b-'0')
-				if math.MaxInt64 < t.num.I {
-					t.num.FillBig()
-					break
-				}
+				t.num.AddDigit(b)
 			}
 			if digitMap[b] == numDigit {
 				off++
